@@ -73,6 +73,11 @@ Shapes(k, st) ==
     [shape |-> "refcycle", u |-> U(<<Slot(A1, k, "X", RefC(R(A1, B1, k, "Y", st))), Slot(B1, k, "Y", RefC(R(B1, A1, k, "X", st)))>>,
                                    R(Root, A1, k, "X", st), k)],
     [shape |-> "sameroot", u |-> U(<<Slot(Root, k, "X", Conc("X", <<>>))>>, R(Root, Root, k, "X", st), k)]}
+   \cup (IF st \in {"schemeless", "https"}       \* another host, but the very path of the root document
+         THEN {[shape |-> "otherhost_samepath",
+                u |-> U(<<Slot(Root, k, "X", Conc("X", <<>>))>>,
+                        [path |-> <<(IF st = "schemeless" THEN "//h.example<T>" ELSE "https://h.example<T>")>> \o Root, frag |-> <<k, "X">>], k)]}
+         ELSE {})
    \cup
    UNION {
      {[shape |-> "child", site |-> s.site,
@@ -120,6 +125,7 @@ Entries == {"file_abs", "file_rel", "datapath", "file_rel_default"}
 QuickSlice(sh, st, e, pos) ==
    \/ (st \in {"plain", "abspath", "http"} /\ e = "file_abs")
    \/ (st \in AbsStyles /\ sh.shape \in {"direct", "child", "wholefile"} /\ e = "datapath" /\ pos = "op")
+   \/ sh.shape = "otherhost_samepath"
    \/ (sh.shape \in {"child", "chain3", "diamond"} /\ e = "file_abs" /\ pos = "op")
    \/ (sh.shape \in {"direct", "child"} /\ st = "plain" /\ pos = "op")
    \/ (sh.shape \in {"direct", "chain3", "wholefile"} /\ e = "file_rel_default" /\ pos = "op")
